@@ -4,7 +4,9 @@
 package props
 
 import (
+	"encoding/json"
 	"fmt"
+	"os"
 	"sort"
 	"strings"
 	"testing"
@@ -161,4 +163,56 @@ func sortedKeys(m map[string]int) []string {
 func drawEpoch(g *zsim.Stream) time.Time {
 	base := []int64{0, 1_000_000_000, 1_700_000_000, 4_000_000_000, -5_000_000}[g.Draw(5)]
 	return time.Unix(base+int64(g.Draw(1000)), int64(g.Draw(1000))*1_000_000).UTC()
+}
+
+// ---- known findings ----
+//
+// A workload that meets a violation whose exact signature is listed as an
+// open finding in known_findings.json counts it and carries on (so that a
+// recorded defect does not stop the search for other violations of the same
+// property). The file is read once per process and never written.
+
+var knownOpen = func() map[string]bool {
+	m := map[string]bool{}
+	path := os.Getenv("ZSIM_KNOWN_FILE")
+	if path == "" {
+		return m
+	}
+	b, err := os.ReadFile(path)
+	if err != nil {
+		return m
+	}
+	var f struct {
+		Findings []struct {
+			Status, Property, Signature string
+		} `json:"findings"`
+	}
+	if json.Unmarshal(b, &f) == nil {
+		for _, x := range f.Findings {
+			if x.Status == "open" {
+				m[x.Signature] = true
+			}
+		}
+	}
+	return m
+}()
+
+func (c *Ctx) known(sig string) bool {
+	if !knownOpen[sig] {
+		return false
+	}
+	for _, k := range c.Known {
+		if k == sig {
+			return true
+		}
+	}
+	c.Known = append(c.Known, sig)
+	return true
+}
+
+func clip(b []byte) string {
+	if len(b) > 100 {
+		return string(b[:100]) + "…"
+	}
+	return string(b)
 }
